@@ -1,33 +1,130 @@
 import argparse
+import concurrent.futures as cf
 import json
 import os
 import sys
+import time
 
 from . import facts as factsmod
-from .report import Run
+from .report import Run, Finding
 
 
-def configs_for(tier):
+def configs_for(tier, quick=None):
     if os.environ.get("CRRL_CONFIGS"):
         return os.environ["CRRL_CONFIGS"].split(",")
-    return factsmod.QUICK_CONFIGS if tier == "quick" else factsmod.THOROUGH_CONFIGS
+    if tier == "quick":
+        return quick or factsmod.QUICK_CONFIGS
+    return factsmod.THOROUGH_CONFIGS
+
+
+class SubRun:
+    """Picklable per-configuration result merged into the main Run."""
+
+    def __init__(self):
+        self.findings = []
+        self.obligations = 0
+        self.discharged = 0
+        self.samples = []
+        self.stats = {}
+
+    def add(self, f):
+        self.findings.append(f)
+
+    def oblige(self, n=1, ok=True):
+        self.obligations += n
+        if ok:
+            self.discharged += n
+
+    def sample(self, s, cap=6):
+        if len(self.samples) < cap:
+            self.samples.append(s)
+
+
+def _worker(args):
+    engine, config, th, prop = args
+    f = factsmod.load(config, th)
+    sub = SubRun()
+    t0 = time.time()
+    ENGINES[engine](f, sub, prop)
+    sub.stats["wall_s"] = round(time.time() - t0, 1)
+    return config, sub
+
+
+def run_engines(run, engines, cfgs, prop):
+    """Run each engine on each configuration (process pool) and merge results into `run`."""
+    th = factsmod.tree_hash()
+    factsmod.extract_many(cfgs, th, jobs=min(len(cfgs), 6))
+    jobs = [(e, c, th, prop) for c in cfgs for e in engines]
+    stats = {}
+    if len(jobs) == 1:
+        results = [_worker(jobs[0])]
+    else:
+        with cf.ProcessPoolExecutor(max_workers=min(len(jobs), 12)) as ex:
+            results = list(ex.map(_worker, jobs))
+    for (e, c, _th, _p), (config, sub) in zip(jobs, results):
+        for f in sub.findings:
+            run.add(f)
+        run.obligations += sub.obligations
+        run.discharged += sub.discharged
+        for s in sub.samples:
+            run.sample(s, cap=16)
+        stats.setdefault(c, {})[e] = sub.stats
+    return stats
+
+
+# ---- engine adapters: (facts, subrun, prop) ---------------------------------
+
+def eng_tables(f, sub, prop):
+    from . import consttab
+    e, t = consttab.check_tables(f, sub)
+    c = consttab.check_curve_constants(f, sub)
+    sub.stats.update(table_entries=e, tables=t, constants=c)
+
+
+def eng_uxcomp(f, sub, prop):
+    from . import consttab
+    n = consttab.check_uxcomp(f, sub)
+    sub.stats.update(words=n)
+
+
+def eng_ctflow(f, sub, prop):
+    from . import ctflow
+    stats, flagged, eng = ctflow.run_ctflow(f, sub, prop)
+    sub.stats.update(stats)
+    sub.stats["flagged_fns"] = len(flagged)
+
+
+ENGINES = {"tables": eng_tables, "uxcomp": eng_uxcomp, "ctflow": eng_ctflow}
+
+
+# ---- properties --------------------------------------------------------------
+
+def check_C02(tier):
+    run = Run("C02", tier, level="other")
+    cfgs = configs_for(tier)
+    stats = run_engines(run, ["ctflow"], cfgs, "C02")
+    nfn = sum(s["ctflow"].get("obligated", 0) for s in stats.values())
+    nsinks = sum(s["ctflow"].get("sinks", 0) for s in stats.values())
+    return run.finish(
+        explanation="MIR-level clause of C02: for every externally reachable function not documented as variable-time "
+                    "(name contains 'vartime' or rustdoc says 'not constant-time'), no SwitchInt discriminant, "
+                    "bounds-checked index, slice range, division operand or value-reading std call is data-flow reachable "
+                    "from a secret parameter/field, interprocedurally (symbolic summaries, field- and variant-sensitive "
+                    "store with points-to). Secrets = everything except lengths, literals, usize/bool/&str parameters and "
+                    "the reviewed tables/secrecy.json. Status-word tests in Option/bool-returning functions are the "
+                    "documented declassification. NOT decided: what LLVM does to the MIR afterwards (machine code).",
+        evaluations=nfn, distinct=nfn,
+        rule="one obligation per (configuration, obligated public function): leaks(f) & Secret(f) = {}",
+        extra_cov=dict(configs=cfgs, per_config=stats, sinks_examined=nsinks))
 
 
 def check_C04(tier):
-    from . import consttab
     run = Run("C04", tier, level="exploration")
-    total = 0
-    tabs = 0
-    consts = 0
     cfgs = configs_for(tier)
-    th = factsmod.tree_hash()
-    factsmod.extract_many(cfgs, th)
-    for c in cfgs:
-        f = factsmod.load(c, th)
-        e, t = consttab.check_tables(f, run)
-        total += e
-        tabs += t
-        consts += consttab.check_curve_constants(f, run)
+    stats = run_engines(run, ["tables"], cfgs, "C04")
+    total = sum(s["tables"]["table_entries"] for s in stats.values())
+    consts = sum(s["tables"]["constants"] for s in stats.values())
+    tabs = sum(s["tables"]["tables"] for s in stats.values())
     return run.finish(
         explanation="Table clause of C04 only: every entry of every built-in precomputed generator table "
                     "(const-evaluated by rustc on the current tree) equals the multiple of the generator it stands "
@@ -38,28 +135,23 @@ def check_C04(tier):
         rule="enumerate all entries of all PRECOMP_* statics in each build configuration; an entry is non-trivial "
              "when its expected value is a non-neutral point (all are)",
         exhaustive=True,
-        extra_cov=dict(configs=cfgs, tables=tabs, table_entries=total, constants=consts))
+        extra_cov=dict(configs=cfgs, tables=tabs, table_entries=total, constants=consts, per_config=stats))
 
 
 def check_C13(tier):
-    from . import consttab
     run = Run("C13", tier, level="exploration")
     cfgs = configs_for(tier)
-    th = factsmod.tree_hash()
-    factsmod.extract_many(cfgs, th)
-    n = 0
-    for c in cfgs:
-        f = factsmod.load(c, th)
-        n += consttab.check_uxcomp(f, run)
+    stats = run_engines(run, ["uxcomp"], cfgs, "C13")
+    n = sum(s["uxcomp"]["words"] for s in stats.values())
     return run.finish(
         explanation="Table clause of C13: all 16385 UX_COMP words equal ((u_i mod 2^48)<<16)|i for u_i the Montgomery "
                     "u-coordinate of i*2^240*B, sorted ascending with pairwise distinct top 48 bits; B227 = 2^227*B.",
         evaluations=n, distinct=max(n - 1, 0),
         rule="every word of UX_COMP; non-trivial = all but the neutral's word 0", exhaustive=True,
-        extra_cov=dict(configs=cfgs))
+        extra_cov=dict(configs=cfgs, per_config=stats))
 
 
-CHECKS = {"C04": check_C04, "C13": check_C13}
+CHECKS = {"C02": check_C02, "C04": check_C04, "C13": check_C13}
 
 
 def main(argv):
